@@ -31,7 +31,8 @@ extern int ds_nev;
 void ds_flag(int bit);				/* per-case class flag 0..63 */
 void ds_fail(const char *fmt, ...) __attribute__((noreturn, format(printf, 1, 2)));
 void ds_note(const char *fmt, ...) __attribute__((format(printf, 1, 2)));	/* trace output (only with --trace) */
-void ds_done(void) __attribute__((noreturn));	/* scenario finished without violation */
+void ds_done(void) __attribute__((noreturn));
+void ds_child_budget(const char *msg) __attribute__((noreturn));	/* scenario finished without violation */
 void ds_bad_case(const char *fmt, ...) __attribute__((noreturn, format(printf, 1, 2)));
 
 /* raw (uninstrumented) memory helpers for oracles */
@@ -65,7 +66,7 @@ extern int ds_membarrier_available;
 enum {
 	DSF_FUTEX_SLEEP = 48, DSF_FUTEX_WAKE_HIT = 49, DSF_DELAYED_STORE = 50, DSF_FORWARD = 51,
 	DSF_MEMBARRIER = 52, DSF_FAULT_HIT = 53, DSF_SIGNAL_RUN = 54, DSF_CAS_FAIL = 55,
-	DSF_MUTEX_BLOCK = 56, DSF_STALE_READ = 57, DSF_FORKED = 58, DSF_FROZEN = 59, DSF_GATE_PASSED = 60, DSF_SOLO_OP_DONE = 61, DSF_TIMESLICE = 62, DSF_SB_WINDOW = 63,
+	DSF_MUTEX_BLOCK = 56, DSF_STALE_READ = 57, DSF_FORKED = 58, DSF_FROZEN = 59, DSF_GATE_PASSED = 60, DSF_SOLO_OP_DONE = 61, DSF_TIMESLICE = 62, DSF_SB_WINDOW = 63, DSF_STALLED = 47,
 };
 
 typedef void (*ds_scenario_fn)(void);
